@@ -191,20 +191,42 @@ def no_partial_overlap(apps, limit=40):
     return cons
 
 
-def deflate_payload(tag: int, out_len: int, wbits: int):
-    """A compressible, position-dependent plaintext of out_len bytes and its compressed form."""
+UNIT5 = bytes.fromhex("000000ffff")        # empty stored block (byte aligned)
+UNIT6 = bytes.fromhex("0200000000ffff")[:1] + bytes.fromhex("000000ffff")  # empty fixed-Huffman block + empty stored block
+
+
+def _plain(tag: int, out_len: int) -> bytes:
     import hashlib
 
-    blk = hashlib.sha256(b"symx-infl" + tag.to_bytes(16, "little")).digest() * 8  # 256 bytes
-    blk = blk[:251]
-    plain = (blk * (out_len // 251 + 1))[:out_len]
-    co = zlib.compressobj(9, zlib.DEFLATED, wbits)
-    comp = co.compress(plain) + co.flush()
-    return plain, comp
+    blk = (hashlib.sha256(b"symx-infl" + tag.to_bytes(16, "little")).digest() * 8)[:251]
+    return (blk * (out_len // 251 + 1))[:out_len]
 
 
-def deflate_size(out_len: int, wbits: int) -> int:
-    return len(deflate_payload(0, out_len, wbits)[1]) + 16
+def deflate_core_size(out_len: int) -> int:
+    """upper bound of the compressed size of any payload produced by deflate_exact, before padding"""
+    co = zlib.compressobj(9, zlib.DEFLATED, -15)
+    return len(co.compress(_plain(0, out_len)) + co.flush()) + 64
+
+
+def deflate_exact(tag: int, out_len: int, in_len: int, wbits: int):
+    """(plaintext, stream): a deflate (wbits<0) or zlib (wbits>0) stream of exactly in_len bytes that inflates to
+    the position-dependent plaintext of out_len bytes. The padding (empty blocks) comes first, so a reader that
+    takes fewer than in_len bytes loses real data."""
+    plain = _plain(tag, out_len)
+    co = zlib.compressobj(9, zlib.DEFLATED, -15 if wbits < 0 else -15)
+    core_ = co.compress(plain) + co.flush()
+    head = b"" if wbits < 0 else bytes([0x78, 0x9C])
+    tail = b"" if wbits < 0 else zlib.adler32(plain).to_bytes(4, "big")
+    pad = in_len - len(core_) - len(head) - len(tail)
+    if pad < 0:
+        raise Unrealisable(f"compressed data needs {len(core_) + len(head) + len(tail)} bytes, only {in_len} available")
+    for b6 in range(0, 5):
+        rest = pad - 6 * b6
+        if rest >= 0 and rest % 5 == 0:
+            stream = head + UNIT6 * b6 + UNIT5 * (rest // 5) + core_ + tail
+            assert len(stream) == in_len
+            return plain, stream
+    raise Unrealisable(f"cannot pad a deflate stream by {pad} bytes")
 
 
 # ---- running the real code -----------------------------------------------------------------------------
